@@ -208,14 +208,15 @@ def body(case):
         check(np.array_equal(np.asarray(sset_p.breakpoints), np.asarray(sset.breakpoints)), 'perm:knots-differ')
         check(bool(np.all(np.abs(np.asarray(curve) - np.asarray(curve_p)) <= 1e-8 * scale)), 'perm:curve-depends-on-input-order',
               lambda: dict(maxdev=float(np.abs(np.asarray(curve) - np.asarray(curve_p)).max())))
-        # with weights spanning six decades the two runs differ by round-off amplified by the conditioning (1e-8 relative): a
-        # residual that close to a limit may fall on either side, so the masks are compared unless the reference run saw one
-        pre = reference(t, nord, x, y, iv, case['lower'], case['upper'], case['maxiter']) if case.get('lowblock') else None
-        if pre is None or (pre[2] and not pre[3]):
+        # the two runs differ by round-off (amplified by the conditioning when weights span six decades): a residual that the
+        # reference run saw within 1e-6 of a limit may fall on either side in either run - also a residual of ~1e-16 at a limit of 0
+        pre = reference(t, nord, x, y, iv, case['lower'], case['upper'], case['maxiter'])
+        zero_lim = case['lower'] == 0 or case['upper'] == 0
+        if not pre[3] and (pre[2] or not (zero_lim or case.get('lowblock'))):
             check(np.array_equal(mask_p, mask[perm]), 'perm:mask-not-in-caller-order', lambda: dict(ndiff=int((mask_p != mask[perm]).sum())))
     with judge('weights'):
         check(not mask[iv <= 0].any(), 'nonpositive-invvar-point-flagged-good', lambda: dict(idx=np.nonzero(mask & (iv <= 0))[0].tolist()))
-    coeff, rmask, supported, near = reference(t, nord, x, y, iv, case['lower'], case['upper'], case['maxiter'])
+    coeff, rmask, supported, near = pre
     if not supported:
         note_label('unsupported')
         return
